@@ -16,7 +16,7 @@ cp -a /verif/harness/target "$base/verif/harness/target"
 sed -i "s#\"/repo/src#\"$base/repo/src#g" "$base/verif/harness/src/main.rs"
 for id in "$@"; do
   out=$(cd "$base/verif" && timeout 3600 bin/check "$id" "$tier" 2>&1); code=$?
-  echo "--- [iso] $name vs $id ($tier): exit=$code"
+  echo "$out" > /dev/shm/logs/isofull_${name}_${id}.log; echo "--- [iso] $name vs $id ($tier): exit=$code"
   echo "$out" | grep -E "^VIOLATION|signature:|detail:|KNOWN-FINDING|MACHINERY|BUILD FAILED|^error" | cut -c1-240 | sort | uniq -c | sort -rn | head -12
 done
 git -C /repo worktree remove --force "$base/repo"
